@@ -45,6 +45,7 @@ func (ex *Exec) step(fr *Frame, ins ssa.Instruction) {
 		ex.mapUpdate(fr, ex.operand(fr, x.Map).(RefV), ex.operand(fr, x.Key), ex.operand(fr, x.Value), x.Pos())
 	case *ssa.MakeMap:
 		m := ex.newMap("makemap", x.Type().Underlying().(*types.Map))
+		m.created = fr.guard
 		fr.set(x, Ref1(MapT{M: m}))
 	case *ssa.MakeSlice:
 		fr.set(x, ex.makeSlice(fr, x))
@@ -442,7 +443,7 @@ func (ex *Exec) rangeOp(fr *Frame, x *ssa.Range) Value {
 		r := v.(RefV)
 		it := &RangeIterV{Map: &r}
 		for _, a := range r.Alts {
-			it.N = append(it.N, len(a.Tgt.(MapT).M.entries))
+			it.N = append(it.N, len(a.Tgt.(MapT).M.resolve().entries))
 		}
 		return it
 	}
@@ -467,7 +468,7 @@ func (ex *Exec) next(fr *Frame, x *ssa.Next) Value {
 			pos -= it.N[ai]
 			continue
 		}
-		e := a.Tgt.(MapT).M.entries[pos]
+		e := a.Tgt.(MapT).M.resolve().entries[pos]
 		live := And(a.C, e.Live)
 		// dead entries skip to the next iteration
 		fr.addEdge(fr.cur, And(fr.guard, Not(live)), nil)
